@@ -66,7 +66,13 @@ class ExtFixture:
         elif flavour in ("plist", "pset"):
             Parent.proxy = association_proxy("items", "value")
         reg.configure()
-        self.engine = sa.create_engine("sqlite:///" + self.path, poolclass=NullPool)
+        self.engine = sa.create_engine("sqlite:///" + self.path)
+
+        @sa.event.listens_for(self.engine, "connect")
+        def _fast(dbapi_con, rec):          # scratch database: durability is irrelevant, visibility to the second connection is not
+            dbapi_con.execute("pragma synchronous=off")
+            dbapi_con.execute("pragma journal_mode=memory")
+
         reg.metadata.create_all(self.engine)
         self.raw = sqlite3.connect(self.path, isolation_level=None)
         self.session = None
@@ -198,6 +204,48 @@ def positions_mismatch(fx):
     return None
 
 
+def legacy_assoc_setslice(l, sl, value):
+    """The pinned tree's _AssociationList.__setitem__ slice branch (before fix e371dcf) over the pinned tree's instrumented list
+    (before 9cb0b6d), run on a plain list -> (exc, contents). Only used to make the known-finding signature exact."""
+    from checks.pycoll_orm import legacy_setslice
+    l = list(l)
+    try:
+        if sl.stop is None:
+            stop = len(l)
+        elif sl.stop < 0:
+            stop = len(l) + sl.stop
+        else:
+            stop = sl.stop
+        step = sl.step or 1
+        start = sl.start or 0
+        rng = list(range(sl.start or 0, stop, step))
+        sized = list(value)
+        if step == 1:
+            for i in rng:
+                del l[start]
+            i = start
+            for item in sized:
+                exc, l = legacy_setslice(l, slice(i, i), [item])
+                if exc != "none":
+                    return exc, l
+                i += 1
+        else:
+            if len(sized) != len(rng):
+                raise ValueError("size")
+            for i, item in zip(rng, sized):
+                l[i] = item
+    except Exception as e:
+        return type(e).__name__, l
+    return "none", l
+
+
+def legacy_flag(fx, op, old, exc, got):
+    if fx.flavour != "plist" or op["n"] != "setslice":
+        return None
+    lexc, lval = legacy_assoc_setslice(old, slice(pc.dec(op["a"]), pc.dec(op["b"]), pc.dec(op["c"])), list(op["v"]))
+    return lexc == exc and (lval == got or lexc != "none")
+
+
 def run_case(fx, case, argform="list"):
     """single operation on a fresh in-memory collection (no database): contents / return / exception = spec, positions = indices"""
     op, exp = case["op"], case["exp"]
@@ -205,6 +253,10 @@ def run_case(fx, case, argform="list"):
     old = observe(fx)
     exc, rk, ret = perform_on(fx, op, argform)
     got = observe(fx)
+    fx.legacy = legacy_flag(fx, op, old, exc, got)
+    if fx.kind == "dict" and op["n"] == "assign":
+        # a proxy assignment updates the mapping in place: surviving keys keep their place (dict equality ignores order)
+        got, exp = sorted(got), dict(exp, val=sorted(exp["val"]))
     m = pc.outcome_mismatch(fx.kind, exp, exc, rk, ret, got, old, unkey=pc.unkey_str)
     if m:
         return "outcome", m
@@ -239,6 +291,7 @@ class ExtSeqDriver:
             old = observe(fx)
             exc, rk, ret = perform_on(fx, op, self.argform)
             got = observe(fx)
+            self.legacy = legacy_flag(fx, op, old, exc, got)
             m = pc.outcome_mismatch(fx.kind, act["exp"], exc, rk, ret, got, old, unkey=pc.unkey_str)
             if m:
                 self.in_step = got == pc.exp_contents(fx.kind, to["val"])
